@@ -148,6 +148,17 @@ impl BigUint {
     }
 //@ end
 
+//@ extract src/biguint.rs :: impl Integer for BigUint :: fn divides props=C13 label=biguint_divides
+    fn divides(&self, other: &BigUint) -> /*+*/(r: /*-*/bool/*+*/)/*-*/
+//+{
+        requires self.wf(), other.wf()
+        ensures r == divides(other.v(), self.v())
+//+}
+    {
+        self.is_multiple_of(other)
+    }
+//@ end
+
 //@ extract src/biguint.rs :: impl Integer for BigUint :: fn next_multiple_of rules=R0,R3n1 props=C13,C14
     fn next_multiple_of(&self, other: &Self) -> /*+*/(r: /*-*/Self/*+*/)/*-*/
 //+{
